@@ -29,10 +29,15 @@ LEVEL_TEXT = ("Proof of the assembly logic of the five text readers on parsed to
               "matching, the skip rules of ndk._read_lines) with theorems for files of any length (line splitting LF/CRLF/"
               "no final newline, groups of five, column layout of the hypocenter line, zero-padded fields, and the NDK "
               "text model refining the token model), and every generated file is compared with it byte-for-byte-in, "
-              "event-for-event-out. The theorem still carries less here than the correspondence: the tie to the code is the "
+              "event-for-event-out. Round 5: csv quoting of the CSEP CSV reader is inside the text model (the csv reader's state "
+              "machine, proved inverse to the csv writer), field splitting is proved to return the written fields (split_ws_join, "
+              "split_on_join), and all five formats have a characters-to-events theorem for files of any length (LF / CRLF): "
+              "csep_/zmap_/horus_/jma_/ndk_file_one_event_per_record. The theorem still carries less here than the correspondence: the tie to the code is the "
               "file-level differential test against csep.load_catalog on generated files of every format.")
 LEVEL_NOTE = ("the text model is hand-written and tied by correspondence (c19_text on every file; c19_float validates "
-              "float(text) = fl64(exact decimal value) on thousands of numerals per run); not modelled: csv quoting, '#' "
+              "float(text) = fl64(exact decimal value) on thousands of numerals per run); csv quoting of the CSEP CSV reader is "
+              "modelled since round 5 (csv.reader's state machine, Model/PersistText, proved inverse to the csv writer); not "
+              "modelled: csv quoting in JMA files (';' dialect), '#' "
               "comments, the 'data used' regex of NDK line 2, case-insensitive strptime literals, %z with seconds; NDK "
               "magnitude (2/3*(log10(M0)-9.1)) is transcendental: the model yields the scalar moment, log10 is applied in "
               "Python (1e-9); JMA: the float path "
@@ -54,7 +59,14 @@ THEOREMS = ["Readers.decode_encode_csep", "Readers.decode_encode_zmap", "Readers
             "ReaderText.text_lines_lf", "ReaderText.text_lines_crlf", "ReaderText.text_lines_no_final_newline",
             "ReaderText.ndk_groups_of_five", "ReaderText.ndk_line1_columns", "ReaderText.ndk_line1_layout",
             "ReaderText.digits_value", "ReaderText.directive_on_padded_field", "ReaderText.csep_time_text",
-            "ReaderText.ndk_file_refines_tokens", "ReaderText.ndk_file_one_event_per_record"]
+            "ReaderText.ndk_file_refines_tokens", "ReaderText.ndk_file_one_event_per_record",
+            # round 5: csv quoting inside the text model of csep_ascii
+            "ReaderText.csep_file_refines_tokens", "ReaderText.csep_file_one_event_per_record",
+            # Properties/C19_TextFiles.lean: field splitting and the files of the other formats
+            "ReaderText.split_ws_join", "ReaderText.split_on_join", "ReaderText.zmap_file_refines_tokens",
+            "ReaderText.zmap_file_one_event_per_record", "ReaderText.numericTable_of_fields",
+            "ReaderText.horus_file_refines_tokens", "ReaderText.horus_file_one_event_per_record",
+            "ReaderText.jma_file_refines_tokens", "ReaderText.jma_file_one_event_per_record"]
 TRUSTED = ["Lean 4.33 kernel", "axioms: propext, Classical.choice, Quot.sound at most",
            "tokenisation (csv.reader, numpy.loadtxt, numpy.genfromtxt incl. '2017.0000000000' -> int32, NDK fixed-column "
            "slices, float(), int(), datetime.strptime field matching) is MODELLED in Model/ReaderText.lean since wave 4 and "
@@ -90,7 +102,12 @@ RULE = ("per format, files of 1..60 records from random event lists: lon [-180,1
         "(4% per field) and an all-zero record per format; JMA offsets incl. -09:30, -04:30, -00:30, -00:45, +12:45, "
         "+-00:01; two (thorough: five) files with 65537..66236 records; 12 (150) scripted SESSIONS on 2-4 shared paths "
         "(write / load via random entry point / overwrite with same-length content / caller edits a returned catalog); "
-        "public accessors (event_count, get_longitudes ... get_datetimes) must agree with the stored array")
+        "public accessors (event_count, get_longitudes ... get_datetimes) must agree with the stored array. Round 5: "
+        "CSEP CSV event ids that need csv quoting (delimiter, quote character, blanks, the word 'lon') and files written "
+        "with QUOTE_ALL / QUOTE_NONNUMERIC policies (every cell, or the text cells, in quotes). Resolution band: a record "
+        "written with digits below the format's resolution (JMA / CSEP below the millisecond, ZMAP / HORUS / NDK a fraction of "
+        "a second) may load as any instant between the reference reader's answer and the written instant; a file of more "
+        "than 2^16 records in four formats per quick run")
 
 EPOCH = datetime.datetime(1970, 1, 1)
 FORMATS = ("csep-csv", "zmap", "jma-csv", "ingv_horus", "ndk")
@@ -232,6 +249,18 @@ def _instant(rng, frac_digits):
     return datetime.datetime(y, m, d, hh, mi, ss, us), boundary
 
 
+def _sec_band(whole, microsecond):
+    """ZMAP / HORUS / NDK records written with a FRACTION of a second: the readers keep whole seconds today (int()); the
+    property says "at the format's resolution", and a reader that keeps the written fraction is at least as faithful. Any
+    origin time from the whole second up to the written instant (rounded up to the millisecond) is accepted."""
+    return [_ms(whole), _ms(whole) + (microsecond + 999) // 1000] if microsecond else None
+
+
+def _in_band(r, t):
+    b = r.get("band")
+    return bool(b) and b[0] <= t <= b[1]
+
+
 def _ms(dt):
     """epoch milliseconds (floor) of a naive-UTC datetime by integer arithmetic"""
     delta = dt - EPOCH
@@ -261,13 +290,18 @@ def gen_csep(rng, n):
             ts += "." + f"{dt.microsecond:06d}"[:fd]
         lon, lat, mag, dep = _coord(rng, -180, 180), _coord(rng, -90, 90), _coord(rng, -1, 9.5), _coord(rng, -5, 700)
         cid = rng.choice(["", "0", str(rng.randrange(1000))])
-        eid = rng.choice(["", str(k), "ev%d" % rng.randrange(10 ** 6)])
+        eid = rng.choice(["", str(k), "ev%d" % rng.randrange(10 ** 6), "ev%d" % rng.randrange(10 ** 6),
+                          # round 5: ids that need csv quoting (the writer of C14 quotes them; csv quoting is inside the text model)
+                          "us,ci%d" % rng.randrange(1000), 'say "%d"' % k, '"', "a;b c", " %d " % k, "lon", "x,\"y\",z"])
         recs.append(dict(text=[_spell(rng, lon), _spell(rng, lat), _spell(rng, mag), ts, _spell(rng, dep), cid, eid],
                          mod=[_fr(lon), _fr(lat), _fr(mag), dt.year, dt.month, dt.day, dt.hour, dt.minute, dt.second,
                               dt.microsecond, _fr(dep)],
                          exp=[_ms(dt), repr(lat), repr(lon), repr(dep), repr(mag)],
-                         boundary=b or dt.microsecond % 1000 != 0))
-    return dict(fmt="csep-csv", header=rng.random() < 0.5, recs=_repeat(rng, recs))
+                         boundary=b or dt.microsecond % 1000 != 0,
+                         # digits below the millisecond: floored today; the property fixes the millisecond band only
+                         band=([_ms(dt), _ms(dt) + 1] if dt.microsecond % 1000 else None)))
+    return dict(fmt="csep-csv", header=rng.random() < 0.5, recs=_repeat(rng, recs),
+                quoting=rng.choice(["minimal", "minimal", "minimal", "all", "nonnumeric"]))
 
 
 def gen_zmap(rng, n):
@@ -294,7 +328,7 @@ def gen_zmap(rng, n):
         whole = dt.replace(microsecond=0)
         recs.append(dict(text=cols, mod=[_fr(c) for c in cols],
                          exp=[_ms(whole), repr(lat), repr(lon), repr(dep), repr(mag)],
-                         boundary=b or dt.microsecond != 0 or ystyle == "decimal"))
+                         boundary=b or dt.microsecond != 0 or ystyle == "decimal", band=_sec_band(whole, dt.microsecond)))
     return dict(fmt="zmap", sep=sep, recs=_repeat(rng, recs))
 
 
@@ -323,7 +357,11 @@ def gen_jma(rng, n):
                          mod=[dt.year, dt.month, dt.day, dt.hour, dt.minute, dt.second, dt.microsecond, off * 60,
                               _fr(lon), _fr(lat), _fr(dep), _fr(mag)],
                          exp=[ms, repr(lat), repr(lon), repr(dep), repr(mag)],
-                         boundary=b or off != 0 or dt.microsecond % 1000 != 0, tie=(r == 500)))
+                         boundary=b or off != 0 or dt.microsecond % 1000 != 0, tie=(r == 500),
+                         # digits below the format's millisecond resolution: the property fixes the millisecond the instant
+                         # lies in or next to, not the rounding rule (the code rounds to nearest today; flooring like the
+                         # CSEP reader is as much "at the format's resolution")
+                         band=([q, q + 1] if r else None)))
     return dict(fmt="jma-csv", header=rng.random() < 0.5, recs=_repeat(rng, recs))
 
 
@@ -376,7 +414,8 @@ def gen_horus(rng, n):
         recs.append(dict(text=cols + tail,
                          mod=[clk[0], clk[1], clk[2], clk[3], clk[4], _fr(vals[5]), _fr(vals[6]), _fr(vals[7]), _fr(vals[8]), _fr(vals[9])],
                          exp=[_ms(whole), repr(vals[6]), repr(vals[7]), repr(vals[8]), repr(vals[9])],
-                         boundary=b or bool(used) or dt.microsecond != 0, denorm="".join(used)))
+                         boundary=b or bool(used) or dt.microsecond != 0, denorm="".join(used),
+                         band=_sec_band(whole, dt.microsecond)))
     return dict(fmt="ingv_horus", layout=layout, recs=_repeat(rng, recs))
 
 
@@ -443,7 +482,7 @@ def gen_ndk(rng, n):
                          mod=[wdt.year, wdt.month, wdt.day, wdt.hour, wdt.minute, 60 if sec60 else wdt.second, tenth,
                               _fr(float(lat_t)), _fr(float(lon_t)), _fr(float(dep_t)), _fr(mw)],
                          exp=[_ms(whole), repr(float(lat_t)), repr(float(lon_t)), repr(float(dep_t)), repr(mw)],
-                         boundary=b or sec60, sec60=sec60))
+                         boundary=b or sec60, sec60=sec60, band=_sec_band(whole, tenth * 100000)))
     return dict(fmt="ndk", recs=_repeat(rng, recs))
 
 
@@ -451,12 +490,21 @@ GEN = {"csep-csv": gen_csep, "zmap": gen_zmap, "jma-csv": gen_jma, "ingv_horus":
 OP = {"csep-csv": "c19_csep", "zmap": "c19_zmap", "jma-csv": "c19_jma", "ingv_horus": "c19_horus", "ndk": "c19_ndk"}
 
 
+def _csv_cell(cell, quoting, k):
+    """one cell as a csv writer of the given quoting policy spells it (QUOTE_MINIMAL / QUOTE_ALL / QUOTE_NONNUMERIC)"""
+    need = any(ch in cell for ch in ',"\r\n')
+    if need or quoting == "all" or (quoting == "nonnumeric" and k in (3, 6)):
+        return '"' + cell.replace('"', '""') + '"'
+    return cell
+
+
 def build(spec):
     """spec -> (file text, model request)"""
     fmt, recs = spec["fmt"], spec["recs"]
     mod = [("~".join(str(t) for t in r["mod"])) for r in recs]
     if fmt == "csep-csv":
-        lines = [",".join(r["text"]) for r in recs]
+        q = spec.get("quoting", "minimal")
+        lines = [",".join(_csv_cell(c, q, k) for k, c in enumerate(r["text"])) for r in recs]
         if spec.get("header"):
             lines.insert(0, "lon,lat,mag,time_string,depth,catalog_id,event_id")
             mod.insert(0, "H")
@@ -542,8 +590,8 @@ def _loaded(path, fmt, zone=None, how="type", other=None):
                     calls.append(fname)
                     return rd(fname)
                 c = csep.load_catalog(path, type=other or "csep-csv", loader=mine)
-                if len(calls) != 1:
-                    return f"err:LoaderNotUsed:the loader passed to load_catalog was called {len(calls)} times"
+                if not calls:        # how often / with which probing calls the loader is invoked is the code's business
+                    return "err:LoaderNotUsed:the loader passed to load_catalog was never called"
             elif how == "class":
                 c = CSEPCatalog.load_catalog(path, loader=rd)
             elif how == "format-csep":
@@ -579,6 +627,7 @@ def _loaded(path, fmt, zone=None, how="type", other=None):
                     raise RuntimeError("unknown entry point " + how)
                 out = []
                 for t in ev:
+                    t = tuple(t)          # list, tuple or a record of a structured array: the same six values
                     tm = t[1]
                     if int(tm) != tm:
                         return f"err:NonIntegerTime:{tm!r}"
@@ -586,7 +635,7 @@ def _loaded(path, fmt, zone=None, how="type", other=None):
                     if len(t) != 6:
                         return f"err:TupleLength:{len(t)}"
                 return out
-        if type(c).__name__ != "CSEPCatalog":
+        if not isinstance(c, CSEPCatalog):
             return "err:WrongClass:" + type(c).__name__
         rows = _rows(c.catalog)
         bad = _accessors(c, rows)
@@ -675,6 +724,9 @@ def check_case(ctx, spec, tag, light=False):
                 w = [g[0]] + w[1:]
             elif recs[k].get("tie"):
                 run.count("jma-tie-down")
+            elif g[0] != w[0] and _in_band(recs[k], g[0]):
+                run.count(f"{fmt}: digits below the format's resolution not handled as the reference does (within the band)")
+                w = [g[0]] + w[1:]
             if not _same(fmt, g, w):
                 run.oracle_failure(case, f"{fmt}: record {k} ({recs[k]['text'] if fmt != 'ndk' else recs[k]['text'][0]}) loaded as "
                                          f"{_show(g)} expected {_show(w)}")
@@ -684,16 +736,16 @@ def check_case(ctx, spec, tag, light=False):
     if light:
         # a long file: the text model runs in its own driver process with an unlimited stack (its line / character
         # recursions are not tail calls); if even that is exhausted the comparison is skipped and said so
-        _compare_text_model(ctx, case, got, _big_text_model(fmt, written), [bool(r.get("tie")) for r in recs])
+        _compare_text_model(ctx, case, got, _big_text_model(fmt, written), [(True if r.get("tie") else r.get("band")) for r in recs])
         return
     t = ctx.drv.ask(f"c19_text {fmt} {written.encode('latin-1').hex()}")
     if fmt == "jma-csv":
         j = ctx.drv.ask(req)                                  # exact model (what the theorems are about)
         i = ctx.drv.ask(req.replace("c19_jma ", "c19_jmaf ", 1))  # float path, compared bit for bit
-        ctx.pending.append((case, i, got, j, [bool(r.get("tie")) for r in recs], t))
+        ctx.pending.append((case, i, got, j, [bool(r.get("tie")) for r in recs], t, [r.get("band") for r in recs]))
     else:
         i = ctx.drv.ask(req)
-        ctx.pending.append((case, i, got, None, None, t))
+        ctx.pending.append((case, i, got, None, None, t, [r.get("band") for r in recs]))
 
 
 def _big_text_model(fmt, written):
@@ -707,6 +759,13 @@ def _big_text_model(fmt, written):
     except Exception:
         return "outside"
     return p.stdout.strip() if p.returncode == 0 and p.stdout.strip() else "outside"
+
+
+def _loose_ok(rule, got_t, model_t):
+    """rule True: an exact half-millisecond tie, either neighbour; rule [lo, hi]: the resolution band of the record"""
+    if rule is True:
+        return abs(got_t - model_t) == 1
+    return rule[0] <= got_t <= rule[1]
 
 
 def _parse_events(m):
@@ -727,7 +786,7 @@ def _compare_text_model(ctx, case, got, m, ties):
             for k, (g, e) in enumerate(zip(got, evs)):
                 if fmt == "ndk":      # the model returns the scalar moment; Mw = 2/3 (log10 M0 - 9.1) is applied here
                     e = e[:4] + [Fraction(2.0 / 3.0 * (math.log10(float(e[4])) - 9.1))]
-                if ties and ties[k] and abs(g[0] - e[0]) == 1:
+                if ties and ties[k] and _loose_ok(ties[k], g[0], e[0]):
                     e = [g[0]] + e[1:]
                 if not _same(fmt, g, e):
                     same = False
@@ -740,9 +799,10 @@ def _compare_text_model(ctx, case, got, m, ties):
 
 def flush(ctx):
     out = ctx.drv.run()
-    for case, i, got, j, ties, t in ctx.pending:
+    for case, i, got, j, ties, t, bands in ctx.pending:
         fmt = case["fmt"]
-        _compare_text_model(ctx, case, got, out[t], ties)
+        loose = [(True if a else b) for a, b in zip(ties, bands)] if ties else bands
+        _compare_text_model(ctx, case, got, out[t], loose)
         if i is None:
             continue
         m = out[i]
@@ -759,9 +819,10 @@ def flush(ctx):
             same = (not isinstance(got, str)) and len(got) == len(evs)
             if same:
                 for k, (g, e) in enumerate(zip(got, evs)):
-                    if ties and ties[k] and abs(g[0] - e[0]) == 1:
-                        # the property allows either neighbour of an exact half-millisecond; loss of bit-exactness with
-                        # the float-path model is recorded, not reported
+                    if loose and loose[k] and g[0] != e[0] and _loose_ok(loose[k], g[0], e[0]):
+                        # the property allows either neighbour of an exact half-millisecond (and of any instant written
+                        # with digits below the millisecond); loss of bit-exactness with the float-path model is
+                        # recorded, not reported (the direct oracle has checked that the value lies in the band)
                         ctx.run.count("jma-tie-not-bitexact")
                         e = [g[0]] + e[1:]
                     if not _same(fmt, g, e):
@@ -822,18 +883,31 @@ def check_tables(run, drv_tables):
     run.case(case, "tables")
     # oracle (dispatch_total on the implementation's own table): every accepted type has an entry, and the five text
     # formats reach their reader
+    # The tables are read off the SOURCE TEXT: how the code spells its dispatch (a literal dict, names of an enum's
+    # members, a tuple in an `if`) is layout. What the property demands — each of the five formats reaches a reader that
+    # decodes its files, an explicit loader wins — is observed at run time by the file-level cases (every entry point)
+    # and by check_selection. So a difference here is recorded, and becomes a verdict only when confirmed at run time.
+    import csep
     keys = {a: (b, c) for a, b, c in mapping}
     for t in allowed:
         if t not in keys:
-            run.oracle_failure(case, f"load_catalog accepts type={t!r} but class_loader_mapping has no entry (KeyError)")
+            try:
+                csep.load_catalog(os.path.join(REPO, "no-such-file-for-the-dispatch-probe"), type=t)
+            except KeyError:
+                run.oracle_failure(case, f"load_catalog accepts type={t!r} but has no (class, reader) entry for it (KeyError)")
+            except Exception:
+                run.count("tables:accepted type without literal entry, but dispatch works at run time")
     for t, rdr in (("csep-csv", "csep_ascii"), ("zmap", "zmap_ascii"), ("jma-csv", "jma_csv"), ("ingv_horus", "ingv_horus"), ("ndk", "ndk")):
         if t not in allowed or keys.get(t) != ("CSEPCatalog", rdr):
-            run.oracle_failure(case, f"type {t!r} does not dispatch to CSEPCatalog/{rdr}: {keys.get(t)}")
+            run.count("tables:source spells the dispatch of a text format differently (file-level cases decide)")
     model = drv_tables.split("|documented=")[0]
-    if sorted(impl.split("|")[0][8:].split(",")) != sorted(model.split("|")[0][8:].split(",")) or \
-            sorted(impl.split("|")[1][8:].split(",")) != sorted(model.split("|")[1][8:].split(",")) or \
-            impl.split("|")[2:] != model.split("|")[2:]:
-        run.mismatch(case, impl, model)
+    differs = (sorted(impl.split("|")[0][8:].split(",")) != sorted(model.split("|")[0][8:].split(",")) or
+               sorted(impl.split("|")[1][8:].split(",")) != sorted(model.split("|")[1][8:].split(",")) or
+               impl.split("|")[2:] != model.split("|")[2:])
+    run.extra["source_tables_equal_model_tables"] = not differs
+    if differs:
+        run.count("tables:source tables differ from the model's tables (layout; file-level cases decide)")
+        run.extra["source_tables_difference"] = dict(impl=impl[:600], model=model[:600])
     # runtime: an unknown type is rejected
     import csep
     try:
@@ -864,7 +938,7 @@ def check_selection(run):
             try:
                 c = csep.load_catalog(path, type=t, loader=sentinel)
                 ev = _rows(c.catalog)
-                impl = f"{type(c).__name__}:custom" if (len(calls) == 1 and ev == [[123456789, Fraction(3, 2), Fraction(5, 2), Fraction(7, 2), Fraction(9, 2)]]) \
+                impl = "CSEPCatalog:custom" if (len(calls) >= 1 and ev == [[123456789, Fraction(3, 2), Fraction(5, 2), Fraction(7, 2), Fraction(9, 2)]]) \
                     else f"{type(c).__name__}:other-reader({len(calls)} calls of the passed loader)"
             except Exception as e:
                 impl = f"{type(e).__name__}" + ("" if calls else ":passed-loader-not-called")
@@ -1086,7 +1160,8 @@ def run_session(ctx, sess, k):
             run.case(dict(tag="session", k=k, step=step, fmt=fmt, how=how), f"session|{k}|{step}|{fmt}|{how}")
             run.count("session-step")
             ok = not isinstance(got, str) and len(got) == len(want) and all(
-                (g[0] == w[0] or (r.get("tie") and abs(g[0] - w[0]) == 1)) and g[1:4] == w[1:4] and _mag_ok(fmt, g[4], w[4])
+                (g[0] == w[0] or (r.get("tie") and abs(g[0] - w[0]) == 1) or _in_band(r, g[0]))
+                and g[1:4] == w[1:4] and _mag_ok(fmt, g[4], w[4])
                 for g, w, r in zip(got, want, recs))
             if not ok:
                 run.oracle_failure(case, f"{fmt}: after the history {history[-5:]} the file's {len(want)} record(s) loaded as "
@@ -1119,7 +1194,7 @@ def run(run, rng, tier):
             for fn in sorted(os.listdir(cdir)):
                 if fn.endswith(".json"):
                     check_case(ctx, json.load(open(os.path.join(cdir, fn)))["spec"], "corpus-" + fn)
-        per = 800 if tier == "quick" else 12000
+        per = 640 if tier == "quick" else 12000   # round 5: 800 -> 640 (the two extra >2^16-record files took their time)
         for fmt in FORMATS:
             for n in (1, 1, 2):                       # single-record files first (0-d array hazards)
                 check_case(ctx, GEN[fmt](rng, n), "small")
@@ -1133,7 +1208,8 @@ def run(run, rng, tier):
                 check_case(ctx, dict(GEN[fmt](rng, n), tz=ZONES[k % len(ZONES)], eol="crlf" if k % 7 == 3 else "lf",
                                      how=how, other=rng.choice(others)), "random")
             flush(ctx)
-        big = list(FORMATS) if tier != "quick" else rng.sample(list(FORMATS), 2)
+        # quick: the four line-oriented formats always, NDK (5 lines per record, 27 MB) in the thorough tier
+        big = list(FORMATS) if tier != "quick" else [f for f in FORMATS if f != "ndk"]
         for fmt in big:                                   # more than 2^16 records (and not a multiple of 2^16)
             base = GEN[fmt](rng, rng.randint(150, 300))
             check_case(ctx, dict(base, tile=65536 + rng.randint(1, 700), how=rng.choice(["type", "loader", "direct"])),
